@@ -475,6 +475,9 @@ func (c *compiler) compileQueryUpdate(l, r *Query, op Operator) error {
 	case OpAssign:
 		// optimize assignment operator with constant indexing and slicing
 		//   .foo.[0].[1:2] = f => setpath(["foo",0,{"start":1,"end":2}]; f)
+		if verifOptOff(optAssignSetpath) {
+			return c.compileFunc(&Func{Name: op.getFunc(), Args: []*Query{l, r}})
+		}
 		if xs := l.toIndices(nil); xs != nil {
 			// ref: compileCall
 			v := c.newVariable()
@@ -559,6 +562,9 @@ func (c *compiler) compileBind(l, r *Query, patterns []*Pattern) error {
 	}
 	if len(patterns) > 1 {
 		pc = len(c.codes)
+	}
+	if verifOptOff(optBindExpElide) && len(patterns) == 1 && c.codes[len(c.codes)-2].op == opexpbegin {
+		c.append(&code{op: opnop})
 	}
 	if len(patterns) == 1 && c.codes[len(c.codes)-2].op == opexpbegin {
 		c.codes[len(c.codes)-2].op = opnop
@@ -645,6 +651,9 @@ func (c *compiler) compileIf(e *If) error {
 		return err
 	}
 	f()
+	if pc == len(c.codes) && verifOptOff(optIfEmptyCond) {
+		c.append(&code{op: opnop})
+	}
 	if pc == len(c.codes) {
 		c.codes = c.codes[:pc-1]
 	} else {
@@ -669,6 +678,9 @@ func (c *compiler) compileIf(e *If) error {
 	if e.Else != nil {
 		defer c.newScopeDepth()()
 		defer func() {
+			if verifOptOff(optIfConstResult) {
+				return
+			}
 			// optimize constant results
 			//    opdup, ..., opjumpifnot, opconst, opjump, opconst
 			// => opnop, ..., opjumpifnot, oppush,  opjump, oppush
@@ -857,6 +869,13 @@ func (c *compiler) compileTerm(e *Term) error {
 }
 
 func (c *compiler) compileIndex(e *Term, x *Index) error {
+	if verifOptOff(optConstIndex) {
+		if x.Name != "" {
+			c.appendCodeInfo(x)
+			return c.compileCall("_index", []*Query{{Term: e}, {Term: &Term{Type: TermTypeString, Str: &String{Str: x.Name}}}})
+		}
+		goto general
+	}
 	if k := x.toIndexKey(); k != nil {
 		if err := c.compileTerm(e); err != nil {
 			return err
@@ -865,6 +884,7 @@ func (c *compiler) compileIndex(e *Term, x *Index) error {
 		c.append(&code{op: opindex, v: k})
 		return nil
 	}
+general:
 	c.appendCodeInfo(x)
 	if x.Str != nil {
 		return c.compileCall("_index", []*Query{{Term: e}, {Term: &Term{Type: TermTypeString, Str: x.Str}}})
@@ -1308,6 +1328,9 @@ func (c *compiler) compileObject(e *Object) error {
 		}
 	}
 	c.append(&code{op: opobject, v: len(e.KeyVals)})
+	if verifOptOff(optConstObject) {
+		return nil
+	}
 	// optimize constant objects
 	l := len(e.KeyVals)
 	if pc+l*3+1 != len(c.codes) {
@@ -1408,6 +1431,9 @@ func (c *compiler) compileArray(e *Array) error {
 	if e.Query.Op == OpPipe {
 		return nil
 	}
+	if verifOptOff(optConstArray) {
+		return nil
+	}
 	// optimize constant arrays
 	if (len(c.codes)-pc)%3 != 0 {
 		return nil
@@ -1431,10 +1457,14 @@ func (c *compiler) compileArray(e *Array) error {
 
 func (c *compiler) compileUnary(e *Unary) error {
 	c.appendCodeInfo(e)
+	if verifOptOff(optUnaryConst) {
+		goto general
+	}
 	if v := e.toNumber(); v != nil {
 		c.append(&code{op: opconst, v: v})
 		return nil
 	}
+general:
 	if err := c.compileTerm(e.Term); err != nil {
 		return err
 	}
@@ -1584,6 +1614,12 @@ func (c *compiler) compileCallInternal(
 		if err := c.compileFuncDef(&FuncDef{Name: name, Body: args[i]}, false); err != nil {
 			return err
 		}
+		if internal && verifOptOff(optInlineArg) {
+			c.append(&code{op: opload, v: v})
+			c.append(&code{op: oppushpc, v: pc})
+			c.append(&code{op: opcallpc})
+			goto pushed
+		}
 		if internal {
 			switch len(c.codes) - pc {
 			case 2: // optimize identity argument (opscope, opret)
@@ -1614,7 +1650,11 @@ func (c *compiler) compileCallInternal(
 		} else {
 			c.append(&code{op: oppushpc, v: pc})
 		}
+	pushed:
 		if i == indexing {
+			if verifOptOff(optCallExpElide) && c.codes[len(c.codes)-2].op == opexpbegin {
+				c.append(&code{op: opnop})
+			}
 			if c.codes[len(c.codes)-2].op == opexpbegin {
 				c.codes[len(c.codes)-2] = c.codes[len(c.codes)-1]
 				c.codes = c.codes[:len(c.codes)-1]
@@ -1647,6 +1687,9 @@ func (c *compiler) lazy(f func() *code) func() {
 }
 
 func (c *compiler) optimizeTailRec() {
+	if verifOptOff(optTailRec) {
+		return
+	}
 	var pcs []int
 	scopes := map[int]bool{}
 L:
@@ -1697,13 +1740,22 @@ func (c *compiler) optimizeCodeOps() {
 		case oppush, opdup, opload:
 			switch next.op {
 			case oppop:
+				if verifOptOff(optPeepPop) {
+					break
+				}
 				code.op = opnop
 				next.op = opnop
 			case opconst:
+				if verifOptOff(optPeepConst) {
+					break
+				}
 				code.op = opnop
 				next.op = oppush
 			}
 		case opjump, opjumpifnot:
+			if verifOptOff(optJumpOpt) {
+				break
+			}
 			if j := code.v.(int); j-1 == i {
 				code.op = opnop
 			} else if next = c.codes[j]; next.op == opjump {
